@@ -125,11 +125,46 @@ def d2_writers(facts, rep):
                 rep.ob('D2', 'K1', fn, 'stores only the constant 0 (line %s)' % o['ln'], ok, 'stores %s' % fn.path(val), ln=o['ln'],
                        key_extra=str(o['ln']))
             elif kind == 'copy':
+                if val >= 0:
+                    val = resolve_cond_source(fn, Defs(fn), val)      # `if (state = parent->flag.load()) own.store(state)`
                 sub = fn.subtree(val) if val >= 0 else set()
                 ok = any(fn.nodes[x].get('k') == 'member' and fn.nodes[x]['n'] == 'my_parent' for x in sub) and \
                     any(atomic_op(fn, x) and last_member(fn, atomic_op(fn, x)['obj']) == FLAG for x in sub)
                 rep.ob('D2', 'K10', fn, 'binding copies the flag from the parent context only (line %s)' % o['ln'], ok,
                        'value stored: %s' % fn.path(val), ln=o['ln'], key_extra=str(o['ln']))
+                # "a cancelled context stays cancelled until it is reset": cancel_group_execution() is legal on a context that was
+                # never used, i.e. before it is bound.  Binding may therefore only RAISE the flag: a plain copy of the parent's value
+                # overwrites a requested cancellation with 0.  Accepted: an RMW that can only add bits (fetch_or / |=), a store on an
+                # edge where the parent's value is known to be non-zero, or a stored value that ORs the context's own flag in.
+                raising = o['kind'] in ('rmw', 'cas') and o['name'] in ('fetch_or', 'operator|=', 'compare_exchange_strong', 'compare_exchange_weak')
+                if not raising and val >= 0:
+                    own = [x for x in sub if atomic_op(fn, x) and last_member(fn, atomic_op(fn, x)['obj']) == FLAG and
+                           'my_parent' not in fn.path(atomic_op(fn, x)['obj'])]
+                    has_or = any(fn.nodes[x].get('k') == 'binop' and fn.nodes[x]['op'] in ('|', '||') for x in sub)
+                    raising = bool(own) and has_or
+                if not raising:
+                    defs = Defs(fn)
+
+                    def parent_nonzero(a, truth, fn=fn, defs=defs):
+                        src = resolve_cond_source(fn, defs, a)
+                        n = fn.n(src)
+                        tested, want = src, True
+                        if n.get('k') == 'binop' and n['op'] in ('!=', '==', '>') and (fn.cv(n['r']) == 0 or fn.cv(n['l']) == 0):
+                            tested = n['l'] if fn.cv(n['r']) == 0 else n['r']
+                            tested = resolve_cond_source(fn, defs, tested)
+                            want = n['op'] != '=='
+                        if truth != want:
+                            return False
+                        for x in fn.subtree(tested):
+                            opx = atomic_op(fn, x)
+                            if opx and opx['kind'] == 'load' and last_member(fn, opx['obj']) == FLAG and 'my_parent' in fn.path(opx['obj']):
+                                return True
+                        return False
+                    raising = dominated_by_edges(fn, pos, edges_where(fn, parent_nonzero))[0]
+                rep.ob('D2', 'K1', fn, 'binding can only raise the flag, never overwrite a requested cancellation with 0 (line %s)' % o['ln'],
+                       raising, 'an unconditional copy of the parent\'s state: a context (or task_group) that was cancelled before its first '
+                       'use is bound beneath a running parent and becomes NOT cancelled again - its tasks run', ln=o['ln'],
+                       key_extra='raise|%s' % o['ln'])
             elif kind == 'propagate':
                 # the store must be dominated by the true edge of `ancestor == &src`
                 def anc_eq(a, truth):
@@ -325,11 +360,20 @@ def d4_binding(facts, rep):
             after_reg, _ = every_path_passes(fn, 'entry', lambda p, e: p in set(r[0] for r in regs), end=sp)
             if not after_reg:
                 nspec += 1
-                # speculative copy: dominated by the snapshot, and every path from it passes register_with and then the global load
-                ok1 = bool(snap) and every_path_passes(fn, 'entry', lambda p, e: p in set(q for q, _ in snap), end=sp)[0]
-                ok2 = every_path_passes(fn, sp, lambda p, e: p in set(r[0] for r in regs))[0]
-                ok3 = all(every_path_passes(fn, 'entry', lambda p, e: p == sp, end=gp)[0] or not fn.can_reach(sp, gp) for gp, _ in gload) and \
-                    any(fn.can_reach(sp, gp) for gp, _ in gload)
+                # speculative copy: the READ of the parent's state is dominated by the snapshot and precedes the epoch re-check on every
+                # path; the store (which may be conditional: only a raised state is copied) is followed by register_with
+                lp = sp
+                v0 = so.get('val', -1)
+                if v0 >= 0:
+                    for x in fn.subtree(resolve_cond_source(fn, Defs(fn), v0)):
+                        opx = atomic_op(fn, x)
+                        if opx and opx['kind'] == 'load' and last_member(fn, opx['obj']) == FLAG and fn.pos_of(x) is not None:
+                            lp = fn.pos_of(x)
+                ok1 = bool(snap) and every_path_passes(fn, 'entry', lambda p, e: p in set(q for q, _ in snap), end=lp)[0]
+                ok2 = every_path_passes(fn, sp, lambda p, e: p in set(r[0] for r in regs))[0] and \
+                    every_path_passes(fn, lp, lambda p, e: p in set(r[0] for r in regs))[0]
+                ok3 = all(every_path_passes(fn, 'entry', lambda p, e: p == lp, end=gp)[0] or not fn.can_reach(lp, gp) for gp, _ in gload) and \
+                    any(fn.can_reach(lp, gp) for gp, _ in gload)
                 rep.ob('D4', 'K4', fn, 'speculative copy: after the epoch snapshot, before registration and the epoch re-check',
                        ok1 and ok2 and ok3, 'order snapshot -> copy -> register_with -> re-check broken', ln=so['ln'], key_extra=str(so['ln']))
             else:
